@@ -225,6 +225,13 @@ pub fn domain(dc: &Decaf, quick: bool) -> Vec<(Vec<u8>, &'static str)> {
     for r0 in 0..ne {
         pts.push(dc.elligator_spec(&u(r0)));
     }
+    // unstructured members: pseudo-random multiples of G and pseudo-random Elligator outputs
+    for k in crate::fields::prand(0x02, if quick { 48 } else { 512 }, &dc.r) {
+        pts.push(c.mul(&g, &k));
+    }
+    for r0 in crate::fields::prand(0x0202, if quick { 64 } else { 1024 }, &f.p) {
+        pts.push(dc.elligator_spec(&r0));
+    }
     pts.push(c.mul(&g, &(&dc.r - 1u32)));
     pts.push(c.mul(&g, &((&dc.r - 1u32) >> 1)));
     let valid: Vec<[u8; 32]> = {
@@ -299,6 +306,17 @@ pub fn domain(dc: &Decaf, quick: bool) -> Vec<(Vec<u8>, &'static str)> {
         out.push((to32(&(&t + 1u32)).to_vec(), "2^k+1"));
     }
     out.push((vec![0xff; 32], "all ones"));
+    {
+        // pseudo-random 32-byte strings (top three bits cleared for half of them)
+        let mut gsm = crate::fields::SplitMix(crate::fields::verif_seed() ^ 0xC02);
+        for i in 0..(if quick { 1usize << 12 } else { 1 << 17 }) {
+            let mut b = gsm.bytes(32);
+            if i % 2 == 0 {
+                b[31] &= 0x1f;
+            }
+            out.push((b, "pseudo-random"));
+        }
+    }
     out.push((to32(&((&q - 1u32) >> 1)).to_vec(), "(q-1)/2"));
     out.push((to32(&((&q + 1u32) >> 1)).to_vec(), "(q+1)/2"));
     // ---- lengths 0..=80 x fills (zeros, 0xff, a valid encoding extended/truncated, 8 then zeros)
